@@ -25,6 +25,11 @@ HANDOVER_TIMEOUT = 120.0
 MSG_ADJUST, MSG_DATA, MSG_EXT, MSG_EOF, MSG_CLOSE = 93, 94, 95, 96, 97
 
 
+def _ssh_exception():
+    from paramiko.ssh_exception import SSHException
+    return SSHException
+
+
 class Abort(BaseException):
     """raised inside a parked logical thread to unwind it at the end of a history"""
 
@@ -77,6 +82,7 @@ class LThread:
             raise Abort()
         return p
 
+
     def _main(self):
         while True:
             try:
@@ -101,7 +107,10 @@ class LThread:
             except socket.error as e:
                 self.result = "C" if "closed" in str(e).lower() else "E:" + str(e)
             except Exception as e:  # noqa — classified by the caller
-                self.result = "EXC:" + type(e).__name__ + ":" + str(e)[:80]
+                if isinstance(e, _ssh_exception()):
+                    self.result = "S"
+                else:
+                    self.result = "EXC:" + type(e).__name__ + ":" + str(e)[:80]
             self.op = None
 
 
@@ -187,7 +196,9 @@ class FakeTransport:
         tok = decode(m)
         lt = self.rig.current()
         if lt is not None:
-            lt.park("hold", tok)
+            if lt.park("hold", tok) == "fail":
+                # the transport gives up on this packet (e.g. key re-negotiation timed out) but stays alive
+                raise _ssh_exception()("Key-exchange timed out waiting for key negotiation")
         self.rig.wire.append(tok)
         self.rig.wire_by.append(lt.local if lt is not None else -1)
 
@@ -346,6 +357,11 @@ class Rig:
             self.resume(int(w[1]), "waiting")
         elif k == "emit":
             self.resume(int(w[1]), "hold")
+        elif k == "efail":
+            lt = self.threads[int(w[1])]
+            if lt.state != "hold":
+                raise InfraError("thread %s is %s, schedule wants hold" % (w[1], lt.state))
+            self._resume(lt, "fail")
         elif k == "recv":
             t, n, e = int(w[1]), int(w[2]), w[3] == "1"
             self.call(t, "recv", (lambda: "b%d" % len(c.recv_stderr(n))) if e else (lambda: "b%d" % len(c.recv(n))))
@@ -434,11 +450,11 @@ class Rig:
         sig = ",".join(str(t) for t in range(len(self.threads)) if self.is_signalled(t)) or "-"
         b = lambda x: "1" if x else "0"
         pipes_closed = c.in_buffer._closed and c.in_stderr_buffer._closed
-        return ("o=%d s=%d f=%s b=%d,%d w=%d:%s T=%s%s" % (
+        return ("o=%d s=%d f=%s b=%d,%d w=%d:%s p=%d T=%s%s" % (
             c.out_window_size, c.in_window_sofar,
             b(c.active) + b(c.closed) + b(c.eof_sent) + b(c.eof_received) + b(self.linked) + b(pipes_closed),
             len(c.in_buffer), len(c.in_stderr_buffer),
-            len(self.wire), self.wire[-1] if self.wire else "-",
+            len(self.wire), self.wire[-1] if self.wire else "-", c.out_max_packet_size,
             "|".join(self.thread_view(lt) for lt in self.threads), (" N=" + sig) if with_sig else ""))
 
 
